@@ -44,6 +44,14 @@ func (p *Peer) record(ex *Exchange) {
 // recorded; CONNECT is answered with 200 and tunnelled to resolve(target); any other request is
 // answered by the proxy itself with a small 200 (it plays the origin behind it).
 func forwardProxyConn(p *Peer, resolve Resolver, body string) func(pc *PeerConn) {
+	return forwardProxyConnRefusing(p, resolve, nil, body)
+}
+
+// ConnectRefuser scripts the refusal of a CONNECT by a forward proxy: the whole response (head and body) it
+// answers a CONNECT to target with instead of tunnelling, nil = tunnel as usual.
+type ConnectRefuser func(target string) []byte
+
+func forwardProxyConnRefusing(p *Peer, resolve Resolver, refuse ConnectRefuser, body string) func(pc *PeerConn) {
 	return func(pc *PeerConn) {
 		for i := 0; ; i++ {
 			if i == 0 {
@@ -61,6 +69,12 @@ func forwardProxyConn(p *Peer, resolve Resolver, body string) func(pc *PeerConn)
 				return
 			}
 			if req.Method == "CONNECT" {
+				if refuse != nil {
+					if b := refuse(req.Target); b != nil {
+						pc.Write(b)
+						return
+					}
+				}
 				dst := ""
 				if resolve != nil {
 					dst = resolve(req.Target)
@@ -112,6 +126,13 @@ func startRaw(name string, conf *tls.Config, mk func(p *Peer) func(pc *PeerConn)
 // NewForwardProxy starts a scripted HTTP forward proxy on 127.0.0.1:0.
 func NewForwardProxy(name string, resolve Resolver) (*Peer, error) {
 	return startRaw(name, nil, func(p *Peer) func(pc *PeerConn) { return forwardProxyConn(p, resolve, "via-"+name) })
+}
+
+// NewRefusingForwardProxy is NewForwardProxy whose answer to a CONNECT can be scripted (a refusal).
+func NewRefusingForwardProxy(name string, resolve Resolver, refuse ConnectRefuser) (*Peer, error) {
+	return startRaw(name, nil, func(p *Peer) func(pc *PeerConn) {
+		return forwardProxyConnRefusing(p, resolve, refuse, "via-"+name)
+	})
 }
 
 // NewTLSForwardProxy is NewForwardProxy behind TLS (an "HTTPS proxy").
